@@ -1,6 +1,8 @@
-(** extraction of the C20 model: token loops, grammar, generators, constructors *)
+(** extraction of the C20 model: token loops, grammar, generators, constructors; round 3: the lexer model and the
+    end-to-end pipelines over the run-time parser models of C07 / C08 / C04 *)
 Require Import FastZ.
-From Dashu Require Import Base.Prelude Base.Words Int.IoSpec Macro.LitModel.
+From Dashu Require Import Base.Prelude Base.Words Int.IoSpec Int.IoModel Float.TextIoSpec Float.TextIoModel Float.PartsConstModel
+  Ratio.RatArithModel Macro.LitModel Macro.LitLexModel Macro.LitRefModel.
 Extraction "model.ml"
   signed sign_of blen
   le_bytes quote_words select_words eval_words
@@ -10,4 +12,5 @@ Extraction "model.ml"
   int_tokens_asis int_tokens_spec
   rat_tokens_asis rat_tokens_spec
   macro_uint_value macro_rat_value
-  join_tokens fbin_text_split fbin_text_asis fbin_text_spec.
+  join_tokens fbin_text_split fbin_text_asis fbin_text_spec
+  lex macro_int_asis macro_fbin_asis macro_fdec_asis macro_rat_asis rat_runtime rat_texts_ok int_runtime value_text_ok.
